@@ -241,19 +241,21 @@ func (e *Engine) verifyFunc(key string) (ctx *FuncCtx) {
 	c.specEnv = specEnv
 
 	if c.contract != nil {
-		for _, cl := range c.contract.clauses("let") {
-			saved := st.bound
-			nb := map[string]*Val{"$spec": {S: "1"}, "$pos": {S: strconv.Itoa(int(fd.Body.Lbrace))}}
-			for k, v := range specEnv {
-				nb[k] = v
+		for _, cl := range c.contract.Clauses {
+			switch cl.Kind {
+			case "let":
+				saved := st.bound
+				nb := map[string]*Val{"$spec": {S: "1"}, "$pos": {S: strconv.Itoa(int(fd.Body.Lbrace))}}
+				for k, v := range specEnv {
+					nb[k] = v
+				}
+				st.bound = nb
+				c.bindLet(st, cl, specEnv)
+				st.bound = saved
+			case "requires":
+				v := c.evalSpecAt(st, cl.Expr, fd.Body.Lbrace, specEnv)
+				st.assume(v.S)
 			}
-			st.bound = nb
-			c.bindLet(st, cl, specEnv)
-			st.bound = saved
-		}
-		for _, cl := range c.contract.clauses("requires") {
-			v := c.evalSpecAt(st, cl.Expr, fd.Body.Lbrace, specEnv)
-			st.assume(v.S)
 		}
 		// vacuity guard: the preconditions together must be satisfiable
 		if len(c.contract.clauses("requires")) > 0 {
@@ -306,6 +308,18 @@ func (c *FuncCtx) checkPost(st *State, specEnv map[string]*Val, recv *Val, args 
 		for _, o := range c.obls[n0:] {
 			o.Clause = cl
 		}
+	}
+	if len(c.contract.clauses("like")) > 0 {
+		var results []*Val
+		for _, rv := range c.results {
+			results = append(results, st.vars[rv])
+		}
+		saved := st.bound
+		st.bound = map[string]*Val{"$pos": {S: strconv.Itoa(int(c.decl.Body.Rbrace))}}
+		c.likeClauses(st, c.contract, env, results, func(cl *Clause, idx int, f, text string) {
+			c.oblige(st, "post", fmt.Sprintf("like%d", idx+1), c.decl.Body.Rbrace, f, cl.Tags, text)
+		})
+		st.bound = saved
 	}
 	c.checkFrame(st, env)
 }
